@@ -35,6 +35,9 @@ func (c *Ctx) Do(line string) string {
 
 // Case starts a new replayable case with a reset/header line.
 func (c *Ctx) Case(header string) string {
+	if c.Guard {
+		c.R.Pending(header)
+	}
 	obs, viol := c.E.Exec(header)
 	c.R.Case(header, obs)
 	if viol != "" {
